@@ -117,6 +117,7 @@ fn build_program(r: &mut Rng, class: Class) -> Built {
     o.div = class == Class::Div || r.chance(1, 10);
     o.intrinsics = class == Class::Intrinsic;
     o.branches = false;
+    o.gaps = true; // removed instructions: instruction index != position (caught two seeded regressions)
     o.expr_depth = 1 + r.below(3) as u32;
     let mut tags = vec![format!("addr_bits:{}", o.addr_bits)];
     let nf = if r.chance(1, 3) { 2 } else { 1 };
